@@ -14,6 +14,7 @@
 package main
 
 import (
+	"sync/atomic"
 	"context"
 	"encoding/json"
 	"errors"
@@ -252,6 +253,8 @@ func caseReg(c *vlib.Cases, typ, fb string, rom bool, listings [][]mdl, hMask in
 // up and routed, so that a lookup made while a model was listed cannot colour the lookup made after the
 // endpoint re-listed without it (routing must follow the LATEST listing, whatever was asked before).
 // A nil listing in a round leaves that endpoint untouched; an empty one re-lists it with nothing.
+var histSeq int
+
 // plainRegistry: build the registry the factory builds with model_registry.enable_unifier: false (names resolve by exact match)
 var plainRegistry bool
 
@@ -283,6 +286,24 @@ func caseRegHistory(c *vlib.Cases, typ, fb string, rom bool, rounds [][][]mdl, h
 		}
 		sort.Strings(rows)
 		return strings.Join(rows, ";")
+	}
+	// requests resolving names while the listings change (every second history): what they read is not judged, what
+	// everybody reads once the registration has been processed is
+	histSeq++
+	if histSeq%2 == 0 {
+		var halt atomic.Bool
+		var rwg sync.WaitGroup
+		for g := 0; g < 2; g++ {
+			rwg.Add(1)
+			go func(g int) {
+				defer rwg.Done()
+				for n := 0; !halt.Load(); n++ {
+					_, _ = reg.GetEndpointsForModel(ctx, spellings[(n+g)%len(spellings)])
+				}
+			}(g)
+		}
+		base += 2
+		defer func() { halt.Store(true); rwg.Wait() }()
 	}
 	effective := make([][]mdl, nEP)
 	healthy := pick(all, hMask)
